@@ -10,6 +10,7 @@ import (
 	"regexp"
 	"sort"
 	"strings"
+	"syscall"
 
 	"github.com/glycerine/zygomys/v9/zygo"
 	"verif/harness/lib"
@@ -138,6 +139,13 @@ func evalCaptured2(src string) (Obs, string, string, []string) {
 	done := make(chan bool)
 	go func() { io.Copy(&buf, r); done <- true }()
 	os.Stdout = w
+	// also at the file-descriptor level: the library keeps its own copy of the original
+	// os.Stdout (zygo.OurStdout, used by its time-stamped trace printers), and anything else that
+	// writes to fd 1 must be part of the captured output too
+	savedFd, dupErr := syscall.Dup(1)
+	if dupErr == nil {
+		syscall.Dup2(int(w.Fd()), 1)
+	}
 	var res lib.Result
 	func() {
 		defer func() {
@@ -253,6 +261,10 @@ func evalCaptured2(src string) (Obs, string, string, []string) {
 		res = lib.Eval(env, src, stepBudget)
 	}()
 	os.Stdout = realOut
+	if dupErr == nil {
+		syscall.Dup2(savedFd, 1)
+		syscall.Close(savedFd)
+	}
 	w.Close()
 	<-done
 	r.Close()
@@ -316,6 +328,14 @@ func disturb(k int, rng *lib.Rng, clean bool) {
 			`(def ml2 (methodls (weather)))`, `(aset ml2 0 "edited")`, `(def fl2 (fieldls (hornet)))`, `(aset fl2 1 "edited")`,
 			`(def tl (typelist))`, `(aset tl 0 "edited-type")`, `(def ks (keys (snoopy cry:"a" pack:[1])))`, `(aset ks 0 (quote edited))`,
 			`(def rec (snoopy pack:[1 2 3]))`, `(aset (hget rec (quote pack)) 0 99)`, `(hset (hornet) (quote speed) 77)`,
+			// decoders fed with edge and broken texts (process-wide codec handles must come back unchanged)
+			"(unjson (raw `[18446744073709551615, 5, -3 `))", "(unjson (raw `[18446744073709551615]`))", "(unjson (raw `[9223372036854775808, 1`))", "(unjson (raw `{\"a\":18446744073709551615,`))",
+			"(unjson (raw `[1e400, 5`))", "(unjson (raw `{\"a\":`))", "(unjson (raw `[-9223372036854775809, `))", "(unmsgpack (raw `[1, 2`))", "(unmsgpack (raw \"\"))", "(unjson (raw `[18446744073709551615, {\"a\":`))",
+			"(msgpack (hash a:18446744073709551615ULL))", "(json (hash a:18446744073709551615ULL b:(fn [x] x)))",
+			// calendar and time-of-day functions
+			`(astm "2016-02-26T12:00:00Z")`, `(astm 1456488000)`, `(str (nextBusinessDay (date "2016/02/26")))`, `(dur "1h")`, `(str (astm (date "2016/02/26")))`,
+			// keys sharing a bucket
+			`(def hc (hash))`, `(hset hc (quote speed) 1)`, `(hset hc (symnum (quote speed)) 2)`, `(str hc)`,
 			`(defmac mm [a] ^(let [t 1] (+ ~a t)))`, `(mm 2)`, `(hset h (hash q:1) 2)`, `(aget a 9)`, `(+ 1 "s")`,
 		}
 		runNormal := func() {
